@@ -3009,6 +3009,8 @@ def run(ctx) -> None:
     run_uuid(ctx, ctx.n(250, 16000))
     run_history(ctx, ctx.n(400, 30000))
     restore_registries()
+    run_fuzz(ctx)
+    restore_registries()
 
     ctx.extra['classes_registered'] = registered
     ctx.extra['classes_covered'] = covered
@@ -3043,6 +3045,104 @@ def run(ctx) -> None:
 
 
 # ---------------------------------------------------------------------------
+# coverage-guided campaign (atheris, thorough tier): normalisation idempotence on arbitrary bytes
+# ---------------------------------------------------------------------------
+_FUZZ_REGS = ('l2cap', 'att', 'smp', 'sdp', 'avdtp', 'avrcp_evt')
+
+
+def _fuzz_targets():
+    """(name, parse(bytes) -> object, rebuild(object) -> bytes of a FRESH object built from the parsed fields)."""
+    out = []
+    for name in _FUZZ_REGS:
+        reg = REGS[name]
+        known = {cls for _key, cls in reg.classes()}
+
+        def parse(data, reg=reg, known=known):
+            obj = reg.parse(data, None)
+            if type(obj) not in known:
+                raise ValueError('class outside the registry (generic/unknown code)')
+            return obj
+
+        def rebuild(obj, reg=reg):
+            cls = type(obj)
+            hdr = reg.hdr_of(obj, {'label': 0, 'rejected_signal': 1})
+            values = {n: fresh(getattr(obj, n)) for n in specgen.flat_names(reg.fields(cls))}
+            return reg.ser(reg.build(cls, values, hdr), hdr)
+
+        out.append((name, parse, rebuild))
+    out.append(('sdp_element', sdp.DataElement.from_bytes, lambda e: bytes(de_build(de_tree(e)))))
+    out.append(('rfcomm', rfcomm.RFCOMM_Frame.from_bytes, _rf_rebuild_bytes))
+    out.append(("ad", core.AdvertisingData.from_bytes, lambda a: bytes(core.AdvertisingData([(t, bytes(d)) for t, d in a.ad_structures]))))
+    return out
+
+
+def _rf_rebuild_bytes(o):
+    return bytes(_rf_rebuild(o))
+
+
+_FUZZ = []
+
+
+def fuzz_pdu(data: bytes) -> None:
+    """First byte selects the codec, the rest is its input. Arbitrary bytes are not known to be well-formed, so only
+    this is asserted: if parse(b) succeeds and a fresh object rebuilt from the parsed fields serialises to b1, then b1
+    (a serialisation produced by the library itself) must parse to the same class and re-serialise to b1 again."""
+    from vlib.fuzz import FuzzViolation
+
+    if not _FUZZ:
+        _FUZZ.extend(_fuzz_targets())
+    data = bytes(data)
+    if len(data) < 2:
+        return
+    name, parse, rebuild = _FUZZ[data[0] % len(_FUZZ)]
+    body = data[1:]
+    uuids = list(UUID.UUIDS)
+    try:
+        try:
+            p1 = parse(body)
+            b1 = rebuild(p1)
+        except Exception:
+            return  # not parseable, or parsed values outside what can be serialised
+        try:
+            p2 = parse(b1)
+            b2 = rebuild(p2)
+        except Exception as e:
+            raise FuzzViolation(f'fuzz/normalised_not_parseable/{name}/{type(p1).__name__}', f'{body.hex()} -> {b1.hex()}: {e!r}')
+        if type(p2) is not type(p1):
+            raise FuzzViolation(f'fuzz/class_changes/{name}/{type(p1).__name__}', f'{b1.hex()} parses as {type(p2).__name__}')
+        if b2 != b1:
+            raise FuzzViolation(f'fuzz/not_idempotent/{name}/{type(p1).__name__}', f'{body.hex()} -> {b1.hex()} -> {b2.hex()}')
+    finally:
+        UUID.UUIDS[:] = uuids
+
+
+def check_fuzz_case(ctx, case) -> None:
+    from vlib.fuzz import FuzzViolation
+
+    try:
+        fuzz_pdu(case['data'])
+    except FuzzViolation as v:
+        ctx.fail(v.signature, v.what, case)
+
+
+def run_fuzz(ctx) -> None:
+    from vlib import fuzz
+
+    if ctx.quick or ctx.shard >= 6:
+        return
+    seeds = []
+    if ctx.shard % 2 == 0:  # odd shards start from an empty corpus
+        seeds = [bytes([0]) + bytes.fromhex('0a01080001000200'), bytes([1]) + bytes.fromhex('0a0300'), bytes([2]) + bytes.fromhex('0103000110070f'),
+                 bytes([3]) + bytes.fromhex('0600010008350319110100ff00'), bytes([4]) + bytes.fromhex('1001'), bytes([6]) + bytes.fromhex('3503191101'),
+                 bytes([7]) + bytes.fromhex('0bef0568697a'), bytes([8]) + bytes.fromhex('020106030312180509414243')]
+    r = fuzz.campaign(ctx, 'checks.c18_pdu_codecs', 'fuzz_pdu', runs=150000, max_len=200, seeds=seeds, name=f'pdu_s{ctx.shard}', timeout=1500)
+    ctx.extra.setdefault('fuzz', {})[f'shard{ctx.shard}'] = {k: r[k] for k in ('status', 'executions')}
+    ctx.extra['sum_fuzz_executions'] = ctx.extra.get('sum_fuzz_executions', 0) + r['executions']
+    for sig, what, data in r['crashes']:
+        ctx.fail(sig, what, {'kind': 'fuzz', 'data': data})
+
+
+# ---------------------------------------------------------------------------
 _REPLAYERS = {
     'pdu': replay_pdu,
     'avc': check_avc,
@@ -3059,6 +3159,7 @@ _REPLAYERS = {
     'address': check_address,
     'uuid': check_uuid,
     'uuid_history': check_history,
+    'fuzz': check_fuzz_case,
 }
 
 
